@@ -40,7 +40,12 @@ theorem prov_init : Prov init := by
 
 macro "prov_close" hg:term : tactic =>
   `(tactic| (constructor <;>
-      simp [setCall, setNotif, finish, Call.finish, removeAck, Call.exitLoop, Call.retC, newCall, $hg:term] <;> grind [Prov, Inv, Ret.isResult]))
+      simp [setCall, setNotif, finish, Call.finish, removeAck, exitAck, Call.exitLoop, Call.retC, newCall, Cfg.std_all $hg] <;>
+      grind [Prov, Inv, Ret.isResult]))
+
+macro "prov_close0" : tactic =>
+  `(tactic| (constructor <;>
+      simp [setCall, setNotif, removeAck, Call.exitLoop, Call.retC, newCall] <;> grind [Prov, Inv, Ret.isResult]))
 
 set_option maxHeartbeats 4000000 in
 theorem prov_start {s s' : State} {i seq body : Nat} (h : Prov s) (hi : Inv s)
@@ -48,13 +53,14 @@ theorem prov_start {s s' : State} {i seq body : Nat} (h : Prov s) (hi : Inv s)
   unfold stepStart at hs
   split at hs
   · simp at hs
-  · dsimp only at hs
-    split at hs <;> simp at hs <;> subst hs <;> prov_close True.intro
+  · try dsimp only at hs
+    split at hs <;> simp at hs <;> subst hs <;> prov_close0
 
 set_option maxHeartbeats 4000000 in
-theorem prov_sret {cfg : Cfg} {s s' : State} {i : Nat} {o : Outcome} (hg : cfg.guard = true) (h : Prov s) (hi : Inv s)
+theorem prov_sret {cfg : Cfg} {s s' : State} {i : Nat} {o : Outcome} (hg : cfg.std = true) (h : Prov s) (hi : Inv s)
     (hs : stepSret cfg s i o = some s') : Prov s' := by
   unfold stepSret at hs
+  std_norm hg at hs
   split at hs
   · simp at hs
   · split at hs <;> try (simp at hs)
